@@ -30,6 +30,9 @@ func c17alphabet() []string {
 		for _, tp := range []string{"t", "t/u", "m2/t"} {
 			out = append(out, t+":pub:"+tp+":-", t+":pub:"+tp+":r")
 		}
+		// names that are opaque to MQTT but that a path-cleaning prefix function would rewrite: '..' into the
+		// other tenant's mount point, '.', and an empty level ("@O" is replaced by the other tenant's mount point)
+		out = append(out, t+":pub:../@O/t:-", t+":sub:../@O/#", t+":pub:./t:-", t+":pub:t//u:-")
 		out = append(out, t+":willdrop", t+":dupid")
 	}
 	return out
@@ -105,6 +108,11 @@ func runC17(t *testing.T, p c17path, events []string, direct func(sig, msg strin
 	published := map[byte]map[string]bool{'A': {}, 'B': {}} // tenant -> "topic|payload"
 	perTenant := map[byte]int{}
 	for _, ev := range events {
+		otherMount := mount['A']
+		if ev[0] == 'A' {
+			otherMount = mount['B']
+		}
+		ev = strings.ReplaceAll(ev, "@O", otherMount)
 		parts := strings.Split(ev, ":")
 		tn := ev[0]
 		c := main[tn]
